@@ -11,7 +11,8 @@ theorem printable_node (env : SEnv) (scope : List Sym) (op : Op) (args : List Te
       ((∃ vs, (op = .forall_ ∨ op = .exists_) ∧ p = .qvars vs ∧ binderOK env vs = true ∧
           ∀ a ∈ args, Printable env (vs.reverse ++ scope) a = true) ∨
        (op ≠ .forall_ ∧ op ≠ .exists_ ∧ nodeOK env scope op p args = true ∧ ∀ a ∈ args, Printable env scope a = true)) := by
-  rw [Printable] at h
+  rw [Printable.eq_def] at h
+  simp only at h
   have hty := (Bool.and_eq_true _ _ ▸ h).1
   have hrest := (Bool.and_eq_true _ _ ▸ h).2
   cases hS : stdTy op p (args.map tyD) with
